@@ -1,16 +1,16 @@
 #!/bin/bash
-# usage: tools/run_benign.sh <Cxx> [n]   harmless rewrites in /tmp/ben-Cxx-1..n -> benign/Cxx-i/ (patch, meta, result)
+# usage: tools/run_benign.sh <Cxx> [n] [prefix] [offset]   harmless rewrites in /tmp/<prefix>-Cxx-1..n -> benign/Cxx-(i+offset)/ (patch, meta, result)
 # runs the property's own check plus every check whose anchored code the patch touches (C15 excluded: a source change
 # without regenerated artefacts is a genuine C15 violation by the property's statement)
 cd "$(dirname "$0")/.."
-p=$1; n=${2:-4}
+p=$1; n=${2:-4}; pre=${3:-ben}; off=${4:-0}
 for i in $(seq 1 $n); do
-  src=/tmp/ben-$p-$i; [ -f $src/patch.diff ] || { echo "missing $src"; continue; }
+  src=/tmp/$pre-$p-$i; k=$((i+off)); [ -f $src/patch.diff ] || { echo "missing $src"; continue; }
   ids=$(python3 - $src/patch.diff $p <<'PY'
 import re,sys
 files=re.findall(r"^\+\+\+ b/(\S+)", open(sys.argv[1]).read(), re.M)
-m={"contracts/balance":"C01 C02 C09 C03 C16","contracts/container":"C04 C05 C10 C03 C16 C20","contracts/netmap":"C06 C07 C08 C03 C16 C20",
-   "contracts/nns":"C10 C11 C12 C03 C16","contracts/neofs/":"C17 C19 C03 C16 C20","contracts/alphabet":"C17 C19 C03 C16","contracts/proxy":"C19 C03 C16",
+m={"contracts/balance":"C01 C02 C09 C03 C16","contracts/container":"C04 C05 C14 C10 C03 C16 C20","contracts/netmap":"C06 C07 C08 C03 C16 C20",
+   "contracts/nns":"C10 C11 C12 C18 C03 C16","contracts/neofs/":"C17 C19 C03 C16 C20","contracts/alphabet":"C17 C19 C03 C16","contracts/proxy":"C19 C03 C16",
    "contracts/processing":"C19 C03 C16","contracts/audit":"C20 C03 C16","contracts/reputation":"C20 C03 C16","contracts/neofsid":"C20 C03 C16",
    "deploy/":"C13","rpc/":"C15","common/":"C01 C03 C04 C06 C08 C10 C13 C16 C17 C19 C20"}
 ids=[sys.argv[2]]
@@ -20,12 +20,12 @@ for f in files:
             ids+=v.split()
 out=[]
 for x in ids:
-    if x not in out and (x!="C15" or sys.argv[2]=="C15") and (x!="C18" or sys.argv[2]=="C18"): out.append(x)
+    if x not in out and (x!="C15" or sys.argv[2]=="C15"): out.append(x)
 print(" ".join(out))
 PY
 )
-  echo "== $p-$i: $ids"
-  mkdir -p benign/$p-$i; cp $src/patch.diff $src/meta.json benign/$p-$i/
-  tools/try_benign.sh $src quick $ids > benign/$p-$i/result.txt 2>&1
-  grep -v "^CONFIRMED\|exit 0; 0 VIOLATION" benign/$p-$i/result.txt | cut -c1-400
+  echo "== $p-$k: $ids"
+  mkdir -p benign/$p-$k; cp $src/patch.diff $src/meta.json benign/$p-$k/
+  tools/try_benign.sh $src quick $ids > benign/$p-$k/result.txt 2>&1
+  grep -v "^CONFIRMED\|exit 0; 0 VIOLATION" benign/$p-$k/result.txt | cut -c1-400
 done
